@@ -26,14 +26,26 @@ def stray(cache):
 
 
 def snapshot_reqs(cache, keys):
-    return [{"op": "list", "cache": cache, "mode": "sync"}] + [{"op": "metadata", "cache": cache, "key": k} for k in keys]
+    out = [{"op": "list", "cache": cache, "mode": "sync"}]
+    for k in keys:
+        out.append({"op": "metadata", "cache": cache, "key": k})
+        out.append({"op": "read", "cache": cache, "key": k})
+    return out
 
 
 def norm(resps):
+    import hashlib
     out = []
     for r in resps:
         if "ok" in r and "items" in r["ok"]:
             out.append(sorted((str(i) for i in r["ok"]["items"])))
+        elif "ok" in r and "data" in r["ok"]:
+            d = r["ok"]["data"]
+            if "_digest" not in d:
+                b = drv.data_bytes(d)
+                d.clear()
+                d["_digest"] = (len(b), hashlib.sha1(b).hexdigest())
+            out.append(("data",) + tuple(d["_digest"]))
         else:
             out.append({k: v for k, v in r.items() if k in ("ok", "err", "panic", "hang", "died")})
     return out
@@ -72,6 +84,14 @@ def run(ctx):
         else:
             ln = rng.randint(1, 5000)
         data = gen.data(rng, ln)
+        committed = [e for e in model.index.values()]
+        shared_content = False
+        if committed and rng.random() < 0.3:
+            # abandon / reject exactly the bytes some committed entry relies on
+            e = rng.choice(committed)
+            cand = model.content[ref.sri_address(e["integrity"])]
+            if len(cand) > 0:
+                data, ln, shared_content = cand, len(cand), True
         declared = rng.random() < 0.5
         opts = {}
         if declared:
@@ -109,7 +129,7 @@ def run(ctx):
         ns = len(snap)
         before, w, q, after = resps[:ns], resps[ns], resps[ns + 1], resps[ns + 2:]
         regime = "<=1MiB" if ln <= MIB else ">1MiB"
-        dk = (mode, point, regime, keyed, declared)
+        dk = (mode, point, regime, keyed, declared, shared_content)
         ctx.case(distinct_key=dk, sample={"mode": mode, "point": point, "len": ln, "keyed": keyed,
                                           "declared": opts.get("size"), "chunks": [len(c) for c in chunks][:8],
                                           "result": ev.variant(w), "quiesce": q.get("ok")})
@@ -131,11 +151,11 @@ def run(ctx):
         if "bg_panic" in w:
             ctx.violation(sig + "|bg_panic", f"background panic while abandoning a writer: {w['bg_panic']}", det)
         # (1) no effect on lookups / listings, except a commit that legitimately succeeded
-        committed = (point == "close_commit" and v == "Ok")
-        if not committed and norm(before) != norm(after):
+        committed_now = (point == "close_commit" and v == "Ok")
+        if not committed_now and norm(before) != norm(after):
             ctx.violation(sig + "|lookup-changed", f"{point}: listing/lookup results differ before and after",
                           dict(det, before=norm(before), after=norm(after)))
-        if committed and keyed:
+        if committed_now and keyed:
             model.commit(key, w["ok"]["sri"], data, size=opts.get("size"))
         ctx.count("state_comparisons")
         # (2) temp area empty once quiescent
